@@ -292,7 +292,7 @@ func (r *Receiver) SegmentHandlerFunc(w http.ResponseWriter, req *http.Request) 
 	}
 	if ch.receiveNrRaws == 0 {
 		p := chunkparser.NewMP4ChunkParser(req.Body, buf, chunkParserCallback)
-		err = p.Parse()
+		err = parseUpload(p)
 		if ofh != nil {
 			defer finalClose(ofh)
 		}
@@ -404,6 +404,17 @@ func removeOldSegments(log *slog.Logger, trDir, ext string, lastNrToRemove uint3
 			log.Warn("Failed to delete old segment", "path", segPath, "err", err)
 		}
 	}
+}
+
+// parseUpload parses an uploaded body. The body is untrusted, and a damaged mp4 structure
+// (missing mandatory boxes, boxes of the wrong kind) must give an error, not a panic.
+func parseUpload(p *chunkparser.MP4ChunkParser) (err error) {
+	defer func() {
+		if rec := recover(); rec != nil {
+			err = fmt.Errorf("malformed mp4 data: %v", rec)
+		}
+	}()
+	return p.Parse()
 }
 
 // DiscardUpload reads and discards the upload and returns the status code.
